@@ -111,8 +111,10 @@ def point(ref_lat, ref_lon, dist, bearing):
 
 
 @S.kind("arrays")
-def arrays(ref_lat, ref_lon, seed, n, shape2d):
-    """xy_to_latlon on arrays equals the scalar calls element by element."""
+def arrays(ref_lat, ref_lon, seed, n, shape2d, layout="random"):
+    """xy_to_latlon on arrays equals the scalar calls element by element -- for scattered points and for point sets with
+    structure (meshgrids of either indexing, a polar sampling grid, a rotated grid, arrays whose first column / first row
+    is constant while the interior is not)."""
     import numpy as np
     from bldfm.plotting._geo import xy_to_latlon
     rs = np.random.RandomState(seed)
@@ -121,6 +123,34 @@ def arrays(ref_lat, ref_lon, seed, n, shape2d):
     if shape2d:
         x = x.reshape(2, -1)
         y = y.reshape(2, -1)
+    if layout != "random":
+        m = max(3, int(round(math.sqrt(n))))
+        ax, ay = np.sort(rs.uniform(-4000, 4000, m + 1)), np.sort(rs.uniform(-4000, 4000, m))
+        if layout == "meshgrid-xy":
+            x, y = np.meshgrid(ax, ay)
+        elif layout == "meshgrid-ij":
+            x, y = np.meshgrid(ax, ay, indexing="ij")
+        elif layout == "polar":          # (azimuth, radius), radius from 0, azimuth from 0 counter-clockwise from east
+            r, phi = np.linspace(0.0, 3000.0, m + 1), np.linspace(0.0, 2 * np.pi, m, endpoint=False)
+            x, y = r[None, :] * np.cos(phi)[:, None], r[None, :] * np.sin(phi)[:, None]
+        elif layout == "polar-T":
+            r, phi = np.linspace(0.0, 3000.0, m + 1), np.linspace(0.0, 2 * np.pi, m, endpoint=False)
+            x, y = (r[None, :] * np.cos(phi)[:, None]).T, (r[None, :] * np.sin(phi)[:, None]).T
+        elif layout == "rotated":
+            X, Y = np.meshgrid(ax, ay)
+            x, y = 0.8 * X - 0.6 * Y, 0.6 * X + 0.8 * Y
+        elif layout == "edge-constant":  # first column of x and first row of y constant, first row of x / column of y too
+            x, y = rs.uniform(-4000, 4000, (m, m + 1)), rs.uniform(-4000, 4000, (m, m + 1))
+            x[:, 0] = x[0, 0]
+            y[0, :] = y[0, 0]
+            if seed % 2:
+                x[0, :] = x[0, 0]
+                y[:, 0] = y[0, 0]
+        elif layout == "3d":
+            x, y = rs.uniform(-4000, 4000, (2, 3, 4)), rs.uniform(-4000, 4000, (2, 3, 4))
+        else:
+            raise ValueError(layout)
+        x, y = np.array(x, dtype=float), np.array(y, dtype=float)
     x_before, y_before = x.copy(), y.copy()
     la, lo = xy_to_latlon(x, y, ref_lat, ref_lon)
     if not (np.array_equal(x, x_before) and np.array_equal(y, y_before)):
@@ -201,6 +231,9 @@ def generate(tier, rng):
         lat, lon = _ref(rng)
         yield "arrays", dict(ref_lat=lat, ref_lon=lon, seed=rng.randrange(2 ** 31),
                              n=2 * rng.randint(1, 20), shape2d=bool(k % 2))
+    for k, layout in enumerate(("meshgrid-xy", "meshgrid-ij", "polar", "polar-T", "rotated", "edge-constant", "edge-constant", "3d") * (1 if tier == "quick" else 6)):
+        lat, lon = _ref(rng)
+        yield "arrays", dict(ref_lat=lat, ref_lon=lon, seed=rng.randrange(2 ** 31), n=(16, 36, 64)[k % 3], shape2d=True, layout=layout)
     for k in range(20 if tier == "quick" else 200):
         lat, lon = _ref(rng)
         offs = [[rng.uniform(-5000, 5000), rng.uniform(-5000, 5000)]
